@@ -209,12 +209,60 @@ impl Scope {
                         self.render_into(a, 0, out);
                         out.push(')');
                     }
+                    // a composite leaf that is not a single atom is grouped, so
+                    // that the quantifier applies to the whole leaf
+                    G::Leaf(i) if !leaf_is_atomic(self.leaves[i]) => {
+                        out.push_str("(?:");
+                        out.push_str(self.leaves[i]);
+                        out.push(')');
+                    }
                     _ => self.render_into(a, 2, out),
                 }
                 out.push_str(self.unary[*u]);
             }
         }
     }
+}
+
+/// Is a leaf text a single atom (one character, one escape, one class, one group)?
+pub fn leaf_is_atomic(t: &str) -> bool {
+    let cs: Vec<char> = t.chars().collect();
+    if cs.len() == 1 {
+        return true;
+    }
+    if cs[0] == '\\' {
+        return cs.len() == 2 || (cs[1] == 'p' || cs[1] == 'P') && cs[cs.len() - 1] == '}' && t.matches('}').count() == 1;
+    }
+    if cs[0] == '[' && cs[cs.len() - 1] == ']' {
+        // one class expression: brackets balance only at the end
+        let mut depth = 0;
+        for (k, c) in cs.iter().enumerate() {
+            if *c == '[' {
+                depth += 1;
+            } else if *c == ']' {
+                depth -= 1;
+                if depth == 0 && k + 1 != cs.len() {
+                    return false;
+                }
+            }
+        }
+        return true;
+    }
+    if cs[0] == '(' && cs[cs.len() - 1] == ')' {
+        let mut depth = 0;
+        for (k, c) in cs.iter().enumerate() {
+            if *c == '(' {
+                depth += 1;
+            } else if *c == ')' {
+                depth -= 1;
+                if depth == 0 && k + 1 != cs.len() {
+                    return false;
+                }
+            }
+        }
+        return true;
+    }
+    false
 }
 
 // Note on `Alt` rendering: the left operand is rendered in sequence context
@@ -287,6 +335,8 @@ pub fn scope(name: &str) -> Scope {
         ),
         // nesting family behind a non-capturing group (flag x whitespace in `( ?:`)
         "NESTX" => scope("NEST").wrapped("NESTX", "(?:c*)", "", &['a', 'b', 'c']),
+        // fixed-length multi-character bodies under counted quantifiers
+        "FX" => Scope::new("FX", &["a", "b", "(?:ab)", "(?:ba)"], &["{2}", "{1,2}", "{2,3}", "{2,}", "{2,}?", "*", "+"], false, &['a', 'b']),
         // literal prefixes that overlap themselves (prefix-scan shortcut), longer inputs
         "LP" => Scope::new("LP", &["a", "b", "aa", "ab", "aab", "aba", "abab"], &["*", "?", "+"], false, &['a', 'b']),
         // group nesting: capturing groups around / beside possibly-empty terms
